@@ -85,6 +85,9 @@ def trace_validation(res, work, n, max_operands=25):
                 res.violation(f"{expr!r}: operands {texts} differ from the written ones {leaves}", {"tokens": toks, "expr": expr})
         except SyntaxError:
             j = ["reject", []]
+        except BaseException as e:  # pylint:disable=broad-except
+            res.violation(f"parsing the well-formed expression {expr!r} raised {type(e).__name__}", {"tokens": toks, "expr": expr})
+            continue
         traces.append({"id": tid, "toks": toks, "tree": j, "expr": expr})
     slim = [{"id": t["id"], "toks": t["toks"], "tree": t["tree"]} for t in traces]
     t2, acc, diag = validate_traces("CondParserTrace", "CondParserTrace.cfg", slim, work, tag="cptrace")
